@@ -269,6 +269,11 @@ class Engine:
                 return z3.And(nfield(n, 'kind') == so.K_SCALAR,
                               so.PV.is_pv_Str(pv),
                               nfield(n, 'val') == so.PV.pv_s(pv))
+            for p in self.models.plugins:
+                if hasattr(p, 'nodeval_eq'):
+                    r = p.nodeval_eq(self, n, b, st)
+                    if r is not None:
+                        return r
             raise Unsupported('node.value == %r' % (b,))
         for p in self.models.plugins:
             if hasattr(p, 'v_eq'):
